@@ -26,6 +26,9 @@ def named_target_b(*args, **kwargs):
 def gen_plan(run_seed, fault_mode='none'):
     wl = random.Random(core.sub_seed(run_seed, 'workload'))
     n = wl.randint(2, 30)
+    long_history = wl.random() < 0.04
+    if long_history:
+        n = wl.randint(300, 700)  # long-lived handler: several hundred listeners come and go
     prios = wl.choice([[0], [0, 1], [-100, 0, 5], [0, 0, 0, 1, 2, 3], [0.5, 0, -0.5, 2.5, 2]])
     p_none = wl.choice([1.0, 0.7, 0.3])
     ops = []
@@ -34,6 +37,10 @@ def gen_plan(run_seed, fault_mode='none'):
     weights = {'connect': 4, 'deco': wl.choice([0, 1]), 'deco_prio': wl.choice([0, 1]), 'by_name': wl.choice([0, 1]),
                'disconnect': wl.choice([1, 3]), 'disconnect_bogus': wl.choice([0, 1]), 'emit': 3,
                'emit_until': wl.choice([0, 2]), 'copy': wl.choice([0, 1]), 'last_id': wl.choice([0, 1])}
+    weights['disconnect_recent'] = wl.choice([0, 2]) if not long_history else 5
+    if long_history:
+        weights['copy'] = 0
+        weights['emit'] = 1
     kinds = sorted(k for k, w in weights.items() if w)
     for _ in range(n):
         kind = wl.choices(kinds, [weights[k] for k in kinds])[0]
@@ -54,6 +61,9 @@ def gen_plan(run_seed, fault_mode='none'):
                         {'y': n_cb}])
         elif kind == 'disconnect':
             ops.append(['disconnect', h, wl.randrange(0, 8)])
+        elif kind == 'disconnect_recent':
+            # the id is resolved when the op runs: the k-th most recently issued id of that handler
+            ops.append(['disconnect', h, ['recent', wl.choice([0, 0, 1, 2, 5])]])
         elif kind == 'disconnect_bogus':
             ops.append(['disconnect', h, wl.randrange(50, 60)])
         elif kind == 'emit':
@@ -135,6 +145,10 @@ def execute(plan, scratch_root=None, decisions=None, jitters=None):
                             None if fname.endswith('_a') else 'B')
                     elif kind == 'disconnect':
                         lid = op[2]
+                        if isinstance(lid, list):  # ['recent', k]
+                            lid = m['counter'] - 1 - lid[1]
+                            if lid < 0:
+                                continue
                         present = [li for li in m['listeners'] if li[0] == lid]
                         ev.disconnect(lid)
                         facts.update({'id_present': bool(present), 'id': 'zero' if lid == 0 else 'nonzero'})
